@@ -24,6 +24,27 @@ def scenarios(ctx):
         extract = rng.choice(["custom", "header", "ip"])
         out.append({"id": "rnd-%d" % i, "cfg": {"tick_ms": tick, "rates": rates, "cap": rng.choice([nsrc, nsrc + 1, 65536]),
                                                 "level": "http", "extract": extract, "qualified": True, "solo": True}, "steps": steps})
+    # more sources than the capacity: only the tracked source nearest to expiry may be forgotten. The harness applies that
+    # rule to the timeline and lets the evicted source's solo run forget at exactly those points; all decisions must still
+    # equal the solo decisions (timelines are cut at the first tie between equally old entries).
+    for i in range(60 if quick else 600):
+        tps = rng.choice([1, 2, 10])
+        rates = RC.random_rates(rng, tps, multi=1)
+        cap = rng.randint(1, 4)
+        nsrc = cap + rng.randint(1, 3)
+        sources = ["s%d" % j for j in range(1, nsrc + 1)]
+        ttl = RC.ttl_ticks(rates, tps)
+        steps = []
+        for _ in range(120 if quick else 400):
+            x = rng.random()
+            if x < 0.7:
+                steps.append({"op": "req", "src": rng.choice(sources if rng.random() < 0.5 else sources[:cap]), "n": 1})
+            elif x < 0.9:
+                steps.append({"op": "adv", "d": rng.choice([tps, tps, 2 * tps, 3 * tps])})
+            else:
+                steps.append({"op": "adv", "d": ttl + rng.choice([-tps, 0, tps, 4 * tps])})
+        out.append({"id": "overcap-%d" % i, "cfg": {"tick_ms": 1000 // tps, "rates": rates, "cap": cap, "level": "http",
+                                                    "extract": "custom", "qualified": False, "solo": True, "overcap": True}, "steps": steps})
     return out
 
 
@@ -54,8 +75,6 @@ def run(ctx, replay):
             b["clause"] = "C14.Conn" + b["clause"][4:]
     vlib.collect(ctx, res, {s["id"]: s for s in cs}, "conn", C03.classify, ["C14."])
     ctx.traces += len(cs)
-    ctx.notes.append("over-capacity clause (only the entry nearest to expiry is forgotten) is checked on the model "
-                     "(rate-over-capacity shows decisions do change there) but not yet as a contract on real-code traces")
     return vlib.finish(ctx, "model_checking",
                        "rate limiter: joint run of several sources and, on a fresh limiter, the solo run of every source with the "
                        "same times; each decision must equal the solo decision. connection limiter: admitted iff the own source "
